@@ -69,7 +69,16 @@ impl Code {
 			}
 			if interests.local_variable_table || interests.local_variable_type_table {
 				if let Some(local_variables) = self.local_variables {
-					code_visitor.visit_local_variables(local_variables)?;
+					// as when reading: an entry is only delivered to a visitor that is interested in the table it comes from
+					// (descriptor: LocalVariableTable, signature: LocalVariableTypeTable)
+					let was_empty = local_variables.is_empty();
+					let local_variables: Vec<_> = local_variables.into_iter()
+						.filter(|lv| (lv.descriptor.is_some() && interests.local_variable_table)
+							|| (lv.signature.is_some() && interests.local_variable_type_table))
+						.collect();
+					if was_empty || !local_variables.is_empty() {
+						code_visitor.visit_local_variables(local_variables)?;
+					}
 				}
 			}
 
